@@ -202,3 +202,33 @@ func init() {
 		Plugin:                    true,
 	}
 }
+
+func reflProp(id, clauses, notDecided string, probes []string) *propCfg {
+	return &propCfg{
+		Level:       "exploration",
+		Rule:        "a scenario is a seeded message type (open proto2 / proto3 / editions, hybrid, opaque with more than 32 presence bits, extension-bearing; as generated type or as dynamicpb over the same descriptor) and a history in which exclusive mutation phases (Set incl. zero and default values, Clear, Mutable, Set of empty messages, list Append/Set/Truncate, map Set/Clear, oneof member switches incl. message members, SetUnknown, Set/ClearExtension, Merge, binary input naming several members of one oneof, binary / JSON / text round trips, writes through read-only views, JSON / text input naming two members of a oneof) alternate with phases in which 1-4 clients concurrently issue non-mutating calls (Get, Has, Range, WhichOneof, GetUnknown, Len ...); the same history is applied to an abstract message model; non-trivial = every scenario (at least two mutation phases); distinct by hash of (type, flavor, operation sequence)",
+		Assumptions: append([]string{"the abstract message model (written against the protoreflect contract and the language guide, sharing no code with internal/impl or dynamicpb) is the reference; for editions the resolved presence feature is read from the descriptor", "the history follows protoreflect's concurrency contract: mutators are never concurrent with anything"}, commonAssumptions...),
+		Components:  comps(),
+		Clauses:     clauses,
+		NotDecided:  notDecided,
+		Probes:      probes,
+		FaultKinds:  []string{"sched-switch"},
+		Quick:       plan{Builds: []buildCfg{{Race: false, Share: 2}, {Race: true, Share: 1}}, Secs: 30},
+		Thorough:    plan{Builds: []buildCfg{{Race: true, Share: 2}, {Race: false, Share: 2}, {Race: false, Tags: []string{"protoopaque"}, Share: 1}}, Secs: 600},
+	}
+}
+
+func init() {
+	props["C28"] = reflProp("C28",
+		"after every step the message equals the abstract model: defaults for unpopulated fields, presence, oneof exclusivity, Range visiting exactly the populated fields once, empty read-only composites for unpopulated fields (writing through them panics; obtaining them concurrently does not write: race detector), unknown fields, extension Set/Get/Has/Clear",
+		"there are no I/O, time or crash faults for this property; what the simulator adds is the concurrent read phases under a seeded scheduler with race detection, and seeded, shrinkable, replayable histories",
+		[]string{"mutations", "concurrent-read-phases", "dynamicpb-scenarios"})
+	props["C11"] = reflProp("C11",
+		"Has equals model presence after every step (explicit presence once set even to the default, implicit-presence scalars when non-zero, repeated/map when non-empty, oneof members when selected), also through the concurrent read phases; explicit presence survives binary, JSON and text round trips; nothing unpopulated (in particular no implicit-presence zero) appears in the encoding",
+		"value / Range / unknown-field mismatches are left to C28 (this check stops a scenario that hits one)",
+		[]string{"mutations", "zero-value-sets", "concurrent-read-phases", "dynamicpb-scenarios"})
+	props["C12"] = reflProp("C12",
+		"after every step at most one member of each oneof is populated and WhichOneof names it (setters, Set/Mutable/Clear, Merge, binary decode with several members: last wins; round trips); JSON and text input naming two members of one oneof is rejected",
+		"value / presence mismatches outside oneofs are left to C28 / C11",
+		[]string{"mutations", "oneof-operations", "concurrent-read-phases", "dynamicpb-scenarios"})
+}
